@@ -25,7 +25,8 @@ RULE = ('(a) sequential histories per factory (gettz over names / absolute paths
         'points at every line of the three factory __call__ methods and of WeakValueDictionary.get / setdefault / __setitem__ '
         'and at every proxy-lock operation - all single-preemption plans, PCT and random schedules - and free-running threads '
         '(switch interval 1 us).  No exception, no half-built zone, one live object per key.  Non-trivial = history step that '
-        'hits a live model entry, or a multi-task run; distinct = (factory, operation, key state) and interleaving signatures.')
+        'hits a live model entry, or a multi-task run; distinct = (factory, operation, key state) and interleaving signatures.'
+        ' Further scheduled scenarios: cache_clear() racing requests (with a lock-identity invariant), strong-cache trimming at size 1 racing cache_clear / set_cache_size(0), and the last reference to a zone dropped by another thread during a request; near-variant rule zones (J60 vs 59, one field of a relativedelta) and tzlocal objects created under different TZ settings are probed on a dense grid whenever the library calls them equal; GMT+h strings under both sign conventions in the copy / pickle pool.')
 ASSUMPTIONS = ['"still referenced" is read as "still alive" (a weak reference held by the harness is alive)',
                'cache_clear() is allowed to start a new generation of objects (the repository\'s own tests require that); only '
                'equality with the old objects is demanded across it',
